@@ -136,6 +136,7 @@ type Client struct {
 	Dials    int
 	Events   int
 	EventLog []string
+	EnvSeq   int
 }
 
 func NewClient(o ClientOpts) *Client {
